@@ -45,7 +45,7 @@ def check(case, rec):
     eps = 1e-4 * max(1.0, float(np.max(np.abs(f))))
     ctx = dict(world=w, cone=cone, solver=case["opt"]["solver"])
     J = e["J"].astype(np.float64)
-    check_close(rec, "qfrc_constraint=J^T f", qfrc[w], J.T @ f, 1e-4, scale=max(1.0, float(np.max(np.abs(J).T @ np.abs(f)))), sig="qfrc", **ctx)
+    check_close(rec, "qfrc_constraint=J^T f", qfrc[w], J.T @ f, 1e-4, scale=max(1.0, float(np.max(np.abs(J).T @ np.abs(f))), float(np.max(np.abs(d.qfrc_smooth.numpy()[w])))), sig="qfrc", **ctx)
     if W.overflow & int(OT.ITERATIONS | OT.LS_ITERATIONS):
       continue
     interesting = False
